@@ -220,7 +220,7 @@ plan("C19", "other",
      assumptions=["Go crypto/tls and x509 verification are trusted", "the host trust store is pointed (SSL_CERT_FILE) at a generated foreign authority to cover servers that fall back to system roots"])
 
 q, t = tiers(150, 90, 6000, 1500)
-q["layers"] = [dict(runs=150, budget_s=90, params="")] * 14 + [dict(runs=100, budget_s=90, params="mode=free")] * 2
+q["layers"] = [dict(runs=150, budget_s=90, params="")] * 14 + [dict(runs=70, budget_s=90, params="mode=free")] * 2
 t["layers"] = [dict(runs=6000, budget_s=1500, params="")] * 14 + [dict(runs=2000, budget_s=1500, params="mode=free")] * 2
 q["require_probes"] = t["require_probes"] = ["canaries_served", "requests", "free_running_volleys"]
 plan("C20", "exploration",
